@@ -172,8 +172,29 @@ func check(c kmerCase) *vlib.Failure {
 			return vlib.Failf("frequencies", "frequency of %s = %d, scan counts %d (seq %q)", wordOf(letters, c.K, w), freq[kmerindex.Kmer(w)], n, clip(c.Seq))
 		}
 	}
+	// the relative frequency table: the same words, values proportional to the counts
+	nfreq, ok := ki.NormalisedKmerFrequencies()
+	if !ok || len(nfreq) != len(counts) {
+		return vlib.Failf("frequencies", "NormalisedKmerFrequencies() before Build = %d words, %v; scan finds %d distinct words (seq %q k=%d)", len(nfreq), ok, len(counts), clip(c.Seq), c.K)
+	}
+	unit := 0.0
+	for w, n := range counts {
+		v, present := nfreq[kmerindex.Kmer(w)]
+		if !present || !(v > 0) {
+			return vlib.Failf("frequencies", "relative frequency of %s = %v (present %v), the word occurs %d times (seq %q)", wordOf(letters, c.K, w), v, present, n, clip(c.Seq))
+		}
+		if unit == 0 {
+			unit = v / float64(n)
+		}
+		if d := v/float64(n) - unit; d > 1e-12*unit || d < -1e-12*unit {
+			return vlib.Failf("frequencies", "relative frequencies are not proportional to the counts: %s occurs %d times and has %v, another word has %v per occurrence (seq %q)", wordOf(letters, c.K, w), n, v, unit, clip(c.Seq))
+		}
+	}
 	if _, ok := ki.KmerIndex(); ok {
 		return vlib.Failf("state", "KmerIndex() available before Build")
+	}
+	if _, ok := ki.StringKmerIndex(); ok {
+		return vlib.Failf("state", "StringKmerIndex() available before Build")
 	}
 
 	ki.Build()
@@ -182,6 +203,40 @@ func check(c kmerCase) *vlib.Failure {
 	}
 	if _, ok := ki.KmerFrequencies(); ok {
 		return vlib.Failf("state", "KmerFrequencies() still available after Build")
+	}
+	if _, ok := ki.NormalisedKmerFrequencies(); ok {
+		return vlib.Failf("state", "NormalisedKmerFrequencies() still available after Build")
+	}
+	// the raw tables (copies): after Build finger[w] is the end of word w's bucket in pos, the bucket of
+	// word w starting where that of w-1 ends, and the bucket holds exactly the word's positions
+	finger, pos := ki.Finger(), ki.Pos()
+	if c.K <= 8 {
+		if len(finger) < 1<<(2*uint(c.K)) {
+			return vlib.Failf("raw-tables", "Finger() has %d entries for k=%d", len(finger), c.K)
+		}
+		lo := 0
+		for w := 0; w < 1<<(2*uint(c.K)); w++ {
+			hi := int(finger[w])
+			if hi < lo || hi > len(pos) {
+				return vlib.Failf("raw-tables", "Finger()[%s] = %d after a bucket ending at %d (Pos() has %d entries)", wordOf(letters, c.K, w), hi, lo, len(pos))
+			}
+			g := append([]int(nil), pos[lo:hi]...)
+			sort.Ints(g)
+			if !equalInts(g, positions[w]) {
+				return vlib.Failf("raw-tables", "bucket of %s in Pos() = %v, the word occurs at %v (seq %q k=%d)", wordOf(letters, c.K, w), clipI(g), clipI(positions[w]), clip(c.Seq), c.K)
+			}
+			lo = hi
+		}
+		if lo != len(all) {
+			return vlib.Failf("raw-tables", "the buckets of Pos() hold %d positions, scan finds %d valid windows", lo, len(all))
+		}
+	}
+	// they are copies: the caller overwrites them, the answers below are unaffected
+	for i := range finger {
+		finger[i] = 0
+	}
+	for i := range pos {
+		pos[i] = -3
 	}
 	query := func(w int) *vlib.Failure {
 		got, err := ki.KmerPositions(kmerindex.Kmer(w))
